@@ -68,12 +68,15 @@ func ShieldProfile(seed int64, out *Recorder, nOps int) *Chain {
 	unit := time.Duration(20+rng.Intn(20)) * time.Second
 	// The module's design assumption (keeper/collateral.go): the withdraw period is not shorter than the protection
 	// period (21 days each by default), and both are well above the claim lock of two voting periods.
-	sc := ShieldCfg{Protection: 6 * unit, Withdraw: time.Duration(6+rng.Intn(2)) * unit, Voting: unit, Payout: 2 * unit, Unbonding: time.Duration(2+rng.Intn(3)) * unit,
+	sc := ShieldCfg{Protection: 6 * unit, Withdraw: time.Duration(6+rng.Intn(2)) * unit, Voting: unit, Payout: 2 * unit, Unbonding: 0,
 		MinPurchase: []int64{1, 1000, 50000}[rng.Intn(3)],
 		FeesRate:    []sdk.Dec{sdk.NewDecWithPrec(769, 5), sdk.NewDecWithPrec(1, 1), sdk.NewDecWithPrec(3333, 4)}[rng.Intn(3)],
 		PoolLimit:   []sdk.Dec{sdk.NewDecWithPrec(50, 2), sdk.NewDecWithPrec(100, 2), sdk.NewDecWithPrec(25, 2)}[rng.Intn(3)],
 		StakingRate: []sdk.Dec{sdk.NewDec(2), sdk.NewDecWithPrec(15, 1), sdk.NewDecWithPrec(7, 1)}[rng.Intn(3)],
 		DepositRate: sdk.NewDecWithPrec(10, 2), MinClaimDeposit: []int64{100, 10000}[rng.Intn(2)]}
+	// ... and the staking unbonding time is not shorter than the withdraw period (21 days each by default): stake that backs
+	// collateral cannot leave before the collateral does
+	sc.Unbonding = sc.Withdraw + time.Duration(rng.Intn(2))*unit
 	nVal := 2 + rng.Intn(2)
 	stakes := [][]int64{{1000000000, 1000000000, 1000000000}, {3000000000, 1000000000, 500000000}}[rng.Intn(2)]
 	t0 := time.Unix(1600000000, 0).UTC()
